@@ -12,7 +12,7 @@ from harness.c10 import factsx
 
 ID = 'C10'
 HERE = os.path.dirname(os.path.abspath(__file__))
-CASES = {'quick': 4000, 'thorough': 150000}
+CASES = {'quick': 4000, 'thorough': 100000}
 PARALLEL = False          # to_wire needs the cookie texts of the implementation run, which is memoised in-process
 ALLOWED_AXIOMS = ()
 RULE = ('chains of 1-6 requests through a real SignedCookieSessionFactory, each presenting the cookie last set / a tampered '
@@ -40,8 +40,14 @@ TRUSTED = [
 ]
 TECHNIQUE = ('Coq proof (induction over operation lists and request chains) on a hand-written Gallina model whose wrapper '
              'table and constants are regenerated from the class body + extracted-model differential correspondence')
-LEVEL_TEXT = ('Machine-checked theorems for every oracle (mac, ser/deser, b64) satisfying the stated round-trip premises, every '
-              'option set, clock, operation list and chain: see coq/Props/C10.v.')
+LEVEL_TEXT = ('Machine-checked theorems (16, closed under the global context) for every mac/ser/deser/b64 satisfying the stated '
+              'round-trip premises (shown satisfiable), every option set, clock, operation list and request chain: the model of '
+              'CookieSession refines the declarative store semantics over whole histories (persistence incl. flash queues and CSRF '
+              'token, cookie set iff modified or accessed past reissue_time and not suppressed by an exception, creation time '
+              'preserved, timeout kept at = / emptied at +1, new empty session without exception for every byte string that is '
+              'not mac key p ++ p, refusal above 4064 without truncation); every state-changing method is wrapped by '
+              'manage_changed in the regenerated class table.  Tied to the code by shape pins, regenerated table/constants and a '
+              'differential run of the extracted model (exact cookie text) against SignedCookieSessionFactory and a real Router.')
 LEVEL_NOTE = ('Trusted: Coq kernel; hand-written model (shape-pinned, validated by correspondence); Python harness; WebOb/hmac/'
               'json/base64 as abstract functions with explicit premises (no section hypothesis survives; Print Assumptions closed).')
 
@@ -58,6 +64,7 @@ def facts(src):
 
 
 _F = {'cookie_limit': 4064, 'urandom_n': 20}
+SPEC_LIMIT = 4064        # the property's cookie size limit (coq/Model/C10.v spec_limit)
 
 # ------------------------------------------------------------------ JSON values <-> tagged form
 class Unmodelled(Exception):
@@ -277,6 +284,96 @@ def _do_op(sess, o):
     raise ValueError(n)
 
 
+
+def _run_ops(sess, r, clock, osx):
+    rs = []
+    for op in r['ops']:
+        clock.now = op['t']
+        osx.tok = op.get('tok')
+        try:
+            rs.append([0, tj(_do_op(sess, op))])
+        except KeyError:
+            rs.append([1, 1])
+        except AttributeError:
+            rs.append([1, 2])
+        except Unmodelled:
+            rs.append([2])
+        except Exception as e:
+            rs.append(['X', type(e).__name__])
+    return rs
+
+
+def _note_payload(sess, payloads):
+    try:     # payload bytes as the real JSON library writes them (for the digest table only)
+        payloads.append(json.dumps((sess.accessed, sess.created, dict(dict.items(sess)))).encode('utf-8'))
+    except Exception:
+        pass
+
+
+def _read_cookie(resp, name, o, attr_bad):
+    hs = resp.headers.getall('Set-Cookie')
+    if not hs:
+        return [0]
+    if len(hs) == 1 and hs[0].startswith(name + '='):
+        attr_bad += _check_attrs(o, hs[0], name)
+        return [1, hs[0].split('; ')[0][len(name) + 1:]]
+    return ['X', 'set-cookie', hs]
+
+
+class _ViewFailed(Exception):
+    pass
+
+
+def _make_app(factory):
+    """a real Router: session factory configured, one view that drives the session, one exception view"""
+    from pyramid.config import Configurator
+    box = {}
+
+    def view(request):
+        b = box['cur']
+        b['clock'].now = b['r']['t']
+        try:
+            sess = request.session
+        except Exception as e:
+            b['ctor'] = type(e).__name__
+            raise
+        b['s0'] = _snap(sess)
+        b['rs'] = _run_ops(sess, b['r'], b['clock'], b['osx'])
+        b['s1'] = _snap(sess)
+        _note_payload(sess, b['payloads'])
+        if b['r'].get('exc'):
+            raise _ViewFailed()
+        return _impl['Response']('ok')
+
+    def failed(exc, request):
+        resp = _impl['Response']('failed')
+        resp.status_int = 500
+        return resp
+
+    config = Configurator(session_factory=factory)
+    config.add_route('r', '/')
+    config.add_view(view, route_name='r')
+    config.add_view(failed, context=_ViewFailed)
+    return config.make_wsgi_app(), box
+
+
+def _through_router(app_box, name, text, r, clock, osx, payloads, o, attr_bad):
+    app, box = app_box
+    b = box['cur'] = {'r': r, 'clock': clock, 'osx': osx, 'payloads': payloads}
+    headers = {} if text is None else {'Cookie': '%s=%s' % (name, text)}
+    req = _impl['Request'].blank('/', headers=headers)
+    try:
+        resp = req.get_response(app)
+    except ValueError as e:
+        if 's1' in b and 'too long' in str(e):
+            return [0, b['s0'], b['rs'], b['s1'], [2]]
+        return [1, 'ValueError'] if 'ctor' in b else ['X', 'ValueError', str(e)[:80]]
+    except Exception as e:
+        return [1, b['ctor']] if 'ctor' in b else ['X', type(e).__name__, str(e)[:80]]
+    if 's1' not in b:
+        return ['X', 'view did not run', resp.status]
+    return [0, b['s0'], b['rs'], b['s1'], _read_cookie(resp, name, o, attr_bad)]
+
 ATTR_KEYS = ('max_age', 'path', 'domain', 'secure', 'httponly', 'samesite')
 
 
@@ -328,6 +425,8 @@ def _chain(case):
         factory = _factory(o)
         name = 'session' if o.get('defaults') else o.get('cookie_name', 'session')
         last, history = None, []
+        via_router = bool(case.get('router'))
+        app = _make_app(factory) if via_router else None
         for r in case['reqs']:
             text = materialise(r['src'], last, history, o)
             if text is not None:
@@ -340,52 +439,37 @@ def _chain(case):
             else:
                 req = _impl['StubReq'].blank('/')
                 req.cookies = {name: text}
+            if via_router and (text is None or SAFE_COOKIE.match(text)):
+                ob = _through_router(app, name, text, r, clock, osx, payloads, o, attr_bad)
+                obs.append(ob)
+                if ob[0] == 0 and ob[4][0] == 1:
+                    last = ob[4][1]
+                    history.append(last)
+                    texts.append(last)
+                continue
             try:
                 sess = factory(req)
             except Exception as e:
                 obs.append([1, type(e).__name__])
                 continue
             s0 = _snap(sess)
-            rs = []
-            for op in r['ops']:
-                clock.now = op['t']
-                osx.tok = op.get('tok')
-                try:
-                    rs.append([0, tj(_do_op(sess, op))])
-                except KeyError:
-                    rs.append([1, 1])
-                except AttributeError:
-                    rs.append([1, 2])
-                except Unmodelled:
-                    rs.append([2])
-                except Exception as e:
-                    rs.append(['X', type(e).__name__])
+            rs = _run_ops(sess, r, clock, osx)
             s1 = _snap(sess)
-            try:     # payload bytes as the real JSON library writes them (for the digest table only)
-                payloads.append(json.dumps((sess.accessed, sess.created, dict(dict.items(sess)))).encode('utf-8'))
-            except Exception:
-                pass
+            _note_payload(sess, payloads)
             if r.get('exc'):
                 req.exception = RuntimeError('view failed')
             resp = _impl['Response']()
             try:
                 req._process_response_callbacks(resp)
-                hs = resp.headers.getall('Set-Cookie')
-                if not hs:
-                    fin = [0]
-                elif len(hs) == 1 and hs[0].startswith(name + '='):
-                    val = hs[0].split('; ')[0][len(name) + 1:]
-                    fin = [1, val]
-                    attr_bad += _check_attrs(o, hs[0], name)
-                    last = val
-                    history.append(val)
-                    texts.append(val)
-                else:
-                    fin = ['X', 'set-cookie', hs]
+                fin = _read_cookie(resp, name, o, attr_bad)
             except ValueError as e:
                 fin = [2] if not resp.headers.getall('Set-Cookie') and 'too long' in str(e) else ['X', 'ValueError', str(e)[:80]]
             except Exception as e:
                 fin = ['X', type(e).__name__]
+            if fin[0] == 1:
+                last = fin[1]
+                history.append(last)
+                texts.append(last)
             obs.append([0, s0, rs, s1, fin])
     finally:
         ps.time, ps.os = old_time, old_os
@@ -518,7 +602,7 @@ def spec_holds(case, obs, spec):
             return False                      # creation time preserved through the request
         if f[0] != fin:
             return False
-        if f[0] == 1 and len(f[1]) > _F['cookie_limit']:
+        if f[0] == 1 and len(f[1]) > SPEC_LIMIT:
             return False
     return True if constrained else None
 
@@ -545,6 +629,7 @@ def kinds(case, obs):
     out.add('reissue-%s' % ('default' if o.get('defaults') else 'none' if o.get('reissue', 0) is None else
                             'zero' if o.get('reissue', 0) == 0 else 'set'))
     out.add('len%d' % len(case['reqs']))
+    out.add('via-router' if case.get('router') else 'via-factory')
     prev = None
     for r, ob in zip(case['reqs'], obs[0]):
         k = r['src']['kind']
@@ -566,8 +651,8 @@ def kinds(case, obs):
                         'age-past-timeout' if d > to else 'age-within-timeout')
         out.add('fin-%s' % {0: 'none', 1: 'cookie', 2: 'oversize'}.get(f[0], 'other'))
         if f[0] == 1:
-            out.add('cookie-len-%s' % ('at-limit' if len(f[1]) == _F['cookie_limit'] else
-                                       'near-limit' if len(f[1]) > _F['cookie_limit'] - 8 else 'small'))
+            out.add('cookie-len-%s' % ('at-limit' if len(f[1]) == SPEC_LIMIT else
+                                       'near-limit' if len(f[1]) > SPEC_LIMIT - 8 else 'small'))
             prev = s1[2][1]
         if f[0] == 0 and s1[5]:
             out.add('dirty-but-suppressed-by-exception')
